@@ -70,7 +70,7 @@ spec fn first_dup(keys: Seq<Option<Seq<char>>>, i: int) -> bool {
 
 impl KeepUniqueValidator {
 
-//@unit id=V2 file=src/validators/keep_unique.rs fn=<<impl ValidatorSync for KeepUniqueValidator::validate>> slice_from=<<let mut seen>> slice_through=<<for (line_number, line) in>>
+//@unit id=V2 file=src/validators/keep_unique.rs fn=<<impl ValidatorSync for KeepUniqueValidator::validate>> slice_from=<<let mut seen>> slice_to_block_end=1
 //@wrapper
 fn v2_loop<'a>(
     block_with_context: &'a BlockWithContext,
